@@ -13,6 +13,7 @@ from vf.monitors import call
 
 ID = "C07"
 LEVEL = "exploration"
+CONTRACTS = True  # icontract postconditions on AlignedStream.read/peek/seek fire during this workload too
 STEP_BUDGET = 30_000_000
 ANCHOR_FILES = [f"dissect/hypervisor/disk/{m}.py" for m in ("vhdx", "vmdk", "hdd", "qcow2", "vdi")]
 RULE = (
